@@ -607,6 +607,9 @@ def c10(ctx):
         ("c10_dev_count", "OnlyNewGeneration", dict(MaxFaults=1, MaxSigs=1, Sigs={"HUP"}, Statuses={"err"},
                                                     Dev={"ReloadRetiresByCount"}, props=["OnlyNewGeneration"], inv=[])),
     ]
+    if not ctx.quick:
+        design.append(("c10_big", dict(MaxForks=8, MaxFaults=1, MaxSigs=2, Sigs={"TTIN", "HUP", "TTOU"}, HupW={1, 2, 3},
+                                       HupChg={0, 1}, Statuses={"err"}, inv=SAFETY, workers=8)))
     common(ctx, "C10", fam_c10, design, dev, ["serve"])
 
 
